@@ -159,6 +159,9 @@ def wrappers(t, force_alias=False):
         ('globally: no t { %s }' % text, {'this': 't'}),
         ('globally: some t as A { %s }' % text, {'this': 't'}),
         ('until t { %s }: u causes w' % text, {'this': 't'}),
+        ('after s until t { %s }: u forbids w' % text, {'this': 't'}),
+        ('after t { %s }: u requires w' % text, {'this': 't'}),
+        ('until u: w forbids (s or t { %s })' % text, {'this': 't'}),
     ]
 
 
@@ -348,7 +351,7 @@ def replay(w):
 def describe(tier):
     b = bounds(tier)
     return {
-        'rule': f"schemas and node bounds {b['schema_nodes']} (flat primitives; variable/fixed arrays of each primitive; nested messages three levels; array of messages with constants; fixed arrays of length 0/1/3 and arrays of arrays; four-level nesting) x every Bool term up to the schema's node bound generated type-directedly from the schema's valid paths (rooted at the message and at alias A), literals, + * ** = != < and implies not unary-minus abs len sum max bool int, sets, ranges, indexing, inclusion, both quantifiers (variables typed by their domain); each wrapped into 3-5 property positions; plus a schema whose field names begin with keywords (ERROR, INFO, PIN, notes, inner, ...); plus 7 type-generic predicates each parsed once and checked against number / boolean / string schemas in all 6 orders (histories of length 3); plus the signature matrix (every operator and every built-in function with every valid argument shape, used at its declared result type); parse, per-reference declared-type containment, and HplProperty.type_check_references against the real type tokens. Plus sibling quantifiers (8 x 8 quantified sentences over number / boolean / string domains x 4 pairs of variable names, equal and different, also equal to field names x 3 connectives, and a nested quantifier whose name the sibling reuses) under the matrix schema. A state = one (schema, predicate); transitions = parser / schema-check calls.",
+        'rule': f"schemas and node bounds {b['schema_nodes']} (flat primitives; variable/fixed arrays of each primitive; nested messages three levels; array of messages with constants; fixed arrays of length 0/1/3 and arrays of arrays; four-level nesting) x every Bool term up to the schema's node bound generated type-directedly from the schema's valid paths (rooted at the message and at alias A), literals, + * ** = != < and implies not unary-minus abs len sum max bool int, sets, ranges, indexing, inclusion, both quantifiers (variables typed by their domain); each wrapped into 3-5 property positions; plus a schema whose field names begin with keywords (ERROR, INFO, PIN, notes, inner, ...); plus 7 type-generic predicates each parsed once and checked against number / boolean / string schemas in all 6 orders (histories of length 3); plus the signature matrix (every operator and every built-in function with every valid argument shape, used at its declared result type); parse, per-reference declared-type containment, and HplProperty.type_check_references against the real type tokens. Each predicate is placed in 6 event positions when it mentions no alias (behaviour, own alias, terminator under response / prevention, activator under requirement, member of a disjunctive behaviour) and in 9 when it does (alias from the activator or from a disjunctive trigger; used in behaviours, triggers, terminators and inside disjunctions). Plus sibling quantifiers (8 x 8 quantified sentences over number / boolean / string domains x 4 pairs of variable names, equal and different, also equal to field names x 3 connectives, and a nested quantifier whose name the sibling reuses) under the matrix schema. A state = one (schema, predicate); transitions = parser / schema-check calls.",
         'bounds': b,
         'exhaustive': True,
         'assumptions': ['type-directed generation by sort is the reference notion of well-typed'],
